@@ -10,12 +10,30 @@ def run_native(recipe, release=True):
     except Exception: return {'error': 'replay binary output not understood', 'stdout': p.stdout[-2000:], 'stderr': p.stderr[-2000:], 'rc': p.returncode}
 
 
+MESSAGE_FAMILY = ['', 'a', '\u00e9', 'a' * 15 + '\u00e9', 'a' * 16 + '\u20acuro', 'a' * 31 + '\U0001f600', '{"k":"Zo\u00eb"}', '\x00', 'a' * 63 + '\u00e9' + 'b' * 70000, '\x7f\u0080', ' a ', 'a\n']
+
+
 def confirm(ses, v):
     """True: reproduced natively; False: did not reproduce; None: no recipe"""
     if not v.get('replay'): return None
     r = v['replay']
     if r.get('kani_confirmed'): return True      # Kani ran the compiled code of the real function bit-precisely; its trace is the counterexample
     if 'steps' not in r and r.get('kind') in PY_CONFIRM: return PY_CONFIRM[r['kind']](ses, v)
+    if 'steps' not in r and r.get('kind') == 'roundtrip' and isinstance(r.get('model'), dict):
+        # the solver's model first; when it does not reproduce (the solver's answer came from an abstracted function body, whose real behaviour the
+        # model's arbitrary message need not trigger), the same counterexample with the message replaced by members of a fixed family
+        first = None
+        for msg in [None] + MESSAGE_FAMILY:
+            rr = dict(r, model=dict(r['model']))
+            if msg is not None: rr['model']['message'] = msg.encode('utf-8').hex()
+            sc = script_roundtrip(rr); out = run_native(sc); ses.native_runs = getattr(ses, 'native_runs', 0) + 1
+            if first is None: first = (sc, out)
+            if out.get('violated') is True:
+                v['replay'] = sc; v['native'] = out
+                if msg is not None: v['what'] += ' [reproduced natively with message %r]' % (msg if len(msg) < 60 else msg[:20] + '... (%d chars)' % len(msg))
+                return True
+        v['replay'], v['native'] = first
+        return False if 'violated' in first[1] else None
     if 'steps' not in r:
         if r.get('kind') not in SCRIPTS: return None
         r = SCRIPTS[r['kind']](r); v['replay'] = r
@@ -200,15 +218,22 @@ PY_CONFIRM = {'c17_step': lambda ses, v: confirm_builder(ses, v, ('c17',)), 'c17
 
 
 # ----------------------------------------------------------------------------- parser scenarios (C11, C12, C15, C16): native search guided by the solver's finding
-PAYLOADS = [{}, {'sub': 'a'}, {'sub': 'b'}, {'n': 1}, {'n': '1'}, {'a/b': 'x'}, {'sub': 'a', 'n': 1}, {'x': None}, {'x': 'v'}, {'a~b': 'y', 'sub': 'a'}]
+PAYLOADS = [{'iat': '2019-01-01T00:00:00+00:00'}, {'iat': '2020-02-02T00:00:00+00:00'}, {}, {'sub': 'a'}, {'sub': 'b'}, {'n': 1}, {'n': '1'}, {'a/b': 'x'}, {'sub': 'a', 'n': 1}, {'x': None}, {'x': 'v'}, {'a~b': 'y', 'sub': 'a'}]
 TIME_PAYLOADS = [{'exp': '2099-01-01T00:00:00Z'}, {'exp': '2001-01-01T00:00:00Z'}, {'exp': '2001-01-01T00:00:00+05:30'}, {'exp': '2099-01-01T00:00:00-01:00'}, {'exp': 5}, {'exp': [5]}, {'exp': ''}, {'exp': 'soon'},
                  {'exp': True}, {'exp': None}, {}, {'nbf': '2001-01-01T00:00:00Z'}, {'nbf': '2099-01-01T00:00:00Z'}, {'nbf': '2099-01-01T00:00:00-08:00'}, {'nbf': '2001-01-01T00:00:00+05:30'}, {'nbf': True}, {'nbf': 7},
                  {'nbf': ''}, {'nbf': {}}, {'exp': '2099-01-01T00:00:00Z', 'nbf': '2001-01-01T00:00:00Z'}, {'exp': '2019-01-01T00:00:00+00:00'}, {'nbf': '2019-01-01T00:00:00+00:00'},
-                 {'exp': '2001-01-01 00:00:00Z'}, {'exp': '2099-01-01T00:00:00.123456789Z'}]
-CHECKS = [[], [{'key': 'sub', 'value': 'a'}], [{'key': 'n', 'value': 1}], [{'key': 'n', 'value': '1'}], [{'key': 'sub', 'value': 'a'}, {'key': 'n', 'value': 1}]]
+                 {'exp': '2001-01-01 00:00:00Z'}, {'exp': '2099-01-01T00:00:00.123456789Z'}, {'exp': '9999-12-31T23:59:59-01:00'}, {'nbf': '9999-12-31T12:00:00-13:00'}, {'nbf': '0000-01-01T00:00:00+01:00'},
+                 {'exp': '9999-12-31T23:59:59Z'}, {'nbf': '0000-01-01T00:00:00Z'}]
+CHECKS = [[], [{'key': 'iat', 'value': '2019-01-01T00:00:00+00:00'}], [{'key': 'sub', 'value': 'a'}], [{'key': 'n', 'value': 1}], [{'key': 'n', 'value': '1'}], [{'key': 'sub', 'value': 'a'}, {'key': 'n', 'value': 1}],
+          [{'key': 'sub', 'value': 'b'}, {'key': 'sub', 'value': 'a'}]]
 VALIDATORS = [[], [{'key': 'x', 'kind': 'reject', 'via': 'extend'}], [{'key': 'x', 'kind': 'accept', 'via': 'extend'}], [{'key': 'x', 'kind': 'reject_if_null', 'via': 'validate'}],
               [{'key': 'a/b', 'kind': 'reject_if_null', 'via': 'validate'}], [{'key': 'a~b', 'kind': 'reject_if_null', 'via': 'validate'}], [{'key': 'sub', 'kind': 'reject', 'via': 'validate'}],
-              [{'key': 'x', 'kind': 'accept', 'via': 'validate'}, {'key': 'y', 'kind': 'reject', 'via': 'extend'}]]
+              [{'key': 'x', 'kind': 'accept', 'via': 'validate'}, {'key': 'y', 'kind': 'reject', 'via': 'extend'}],
+              [{'key': 'x', 'kind': 'accept', 'via': 'validate'}, {'key': 'x', 'kind': 'reject', 'via': 'validate'}], [{'key': 'x', 'kind': 'reject', 'via': 'validate'}, {'key': 'x', 'kind': 'accept', 'via': 'validate'}]]
+
+
+import re as _re0
+_re_year0 = _re0.compile(r'^0000-(0[1-9]|1[0-2])-([0-2]\d|3[01])[Tt]([01]\d|2[0-3]):[0-5]\d:[0-5]\d(\.\d+)?([Zz]|[+-]([01]\d|2[0-3]):[0-5]\d)$')
 
 
 def _rfc3339(s):
@@ -216,8 +241,14 @@ def _rfc3339(s):
     if not isinstance(s, str) or not re.match(r'^\d{4}-\d\d-\d\d[Tt ]\d\d:\d\d:\d\d(\.\d+)?([Zz]|[+-]\d\d:\d\d)$', s): return None
     try:
         s2 = re.sub(r'(\.\d{6})\d+', r'\1', s.replace(' ', 'T').replace('t', 'T').replace('Z', '+00:00').replace('z', '+00:00'))
-        return dt.datetime.fromisoformat(s2)
-    except Exception: return None
+        t = dt.datetime.fromisoformat(s2)
+        try: t.astimezone(dt.timezone.utc)
+        except OverflowError:       # the instant lies just outside years 1..9999 once brought to UTC: it is still a well-formed RFC 3339 text
+            return dt.datetime.max.replace(tzinfo=dt.timezone.utc) if t.year > 5000 else dt.datetime.min.replace(tzinfo=dt.timezone.utc)
+        return t
+    except Exception:
+        if _re_year0.match(s): return dt.datetime.min.replace(tzinfo=dt.timezone.utc)      # year 0000 is valid RFC 3339 but not a Python datetime
+        return None
 
 
 def expected_parse(payload, checks, validators, default_parser):
@@ -226,7 +257,7 @@ def expected_parse(payload, checks, validators, default_parser):
     now = dt.datetime.now(dt.timezone.utc)
     vkeys = {v['key']: v for v in validators}
     ok = True
-    for c in checks:
+    for c in {c_['key']: c_ for c_ in checks}.values():      # the expectation given last for a key is the one in force
         if c['key'] in vkeys: continue
         if payload.get(c['key']) is None or payload.get(c['key']) != c['value'] or type(payload.get(c['key'])) != type(c['value']): ok = False
     calls = {}
@@ -305,7 +336,7 @@ def confirm_parser(ses, v, time_claims=False):
     return False
 
 
-PY_CONFIRM.update({'c15': lambda ses, v: confirm_parser(ses, v), 'c16': lambda ses, v: confirm_parser(ses, v), 'c11': lambda ses, v: confirm_parser(ses, v, True),
+PY_CONFIRM.update({'c15': lambda ses, v: confirm_parser(ses, v), 'c16': lambda ses, v: confirm_parser(ses, v), 'c15_registration': lambda ses, v: confirm_parser(ses, v), 'c16_registration': lambda ses, v: confirm_parser(ses, v), 'c11': lambda ses, v: confirm_parser(ses, v, True),
                    'c12': lambda ses, v: confirm_parser(ses, v, True)})
 
 
@@ -380,20 +411,36 @@ def confirm_claims_roundtrip(ses, v):
     seqs.append(([['set', 'a', 1], ['set', 'b', None], ['remove', 'a'], ['build']], {'b': None}))
     seqs.append(([['set', 'iss', 'me'], ['set', 'sub', 's'], ['set', 'aud', 'au'], ['set', 'jti', 'id'], ['set', 'exp', '2031-01-01T00:00:00Z'], ['set', 'nbf', '2020-01-01T00:00:00Z'], ['set', 'iat', '2020-01-01T00:00:00Z'], ['build']],
                  {'iss': 'me', 'sub': 's', 'aud': 'au', 'jti': 'id', 'exp': '2031-01-01T00:00:00Z', 'nbf': '2020-01-01T00:00:00Z', 'iat': '2020-01-01T00:00:00Z'}))
+    # histories with a build in the middle: every build must reflect the claims as they are at that moment
+    import itertools
+    ops = [['set', 'a', 1], ['set', 'a', 2], ['set', 'b', 'x'], ['remove', 'a'], ['build']]
+    for n in (2, 3, 4):
+        for s_ in itertools.product(ops, repeat=n):
+            if ['build'] in [list(o) for o in s_]: seqs.append(([list(o) for o in s_] + [['build']], None))
+    def model(seq):
+        m = {}; outs = []
+        for o in seq:
+            if o[0] == 'set': m[o[1]] = o[2]
+            elif o[0] == 'remove': m.pop(o[1], None)
+            else: outs.append(dict(m))
+        return outs
     for proto in ([v['replay'].get('proto')] if v['replay'].get('proto') else ['v4.local', 'v4.public']):
         out = run_native({'steps': [{'op': 'builder_seqs', 'proto': proto, 'layer': 'generic', 'seed': '07' * 48, 'seqs': [s_ for s_, _ in seqs], 'out': 'B'}], 'violated_if': []})
         ses.native_runs = getattr(ses, 'native_runs', 0) + 1
         res = (out.get('trace') or [{}])[0].get('results')
         if res is None: v['native'] = out; return None
-        for (seq, want), item in zip(seqs, res):
-            b = [o for o in item['outs'] if 'build' in o]
+        for (seq, _), item in zip(seqs, res):
+            b = [o for o in item['outs'] if 'build' in o]; wants = model(seq)
             bad = None
-            if not b or b[-1]['build'] != 'ok': bad = 'build fails: %s' % (b[-1] if b else item['outs'])
-            else:
-                p = b[-1].get('payload', '')
-                try: got = json.loads(p[3:-1]) if p.startswith('Ok(') else None
-                except Exception: got = None
-                if got != want: bad = 'parsed claims %s differ from the claims set %s' % (p[:120], json.dumps(want))
+            if len(b) != len(wants): bad = 'builds observed %d, expected %d' % (len(b), len(wants))
+            for bi, want in zip(b, wants):
+                if bad: break
+                if bi['build'] != 'ok': bad = 'build fails: %s' % bi
+                else:
+                    p = bi.get('payload', '')
+                    try: got = json.loads(p[3:-1]) if p.startswith('Ok(') else None
+                    except Exception: got = None
+                    if got != want: bad = 'parsed claims %s differ from the claims set %s' % (p[:120], json.dumps(want))
             if bad:
                 v['native'] = {'proto': proto, 'sequence': seq, 'violated': bad}; v['what'] += ' [natively: %s: %s]' % (json.dumps(seq), bad); v['replay'] = {'kind': 'c14', 'proto': proto}
                 return True
@@ -489,14 +536,91 @@ def confirm_footer_compare(ses, v):
         for fi, ftxt in enumerate(['f', 'fo', 'foo', 'some footer']):
             mm = dict(m); mm['footer'] = ftxt.encode().hex(); steps.append(build_step(proto, mm, 'some', 'none', out='T%d' % fi))
             real = base64.urlsafe_b64encode(ftxt.encode()).decode().rstrip('=')
-            for ci, c in enumerate([real[:-1], real[:1], real + 'A', real + 'AA', real + '=', '']):
+            cands = [real[:-1], real[:1], real + 'A', real + 'AA', real + '=', '']
+            # same length, several positions changed so that the byte-wise differences cancel under XOR / sum to zero (what a folded comparison would miss)
+            for mask in (1, 2, 3, 0x20):
+                for i, j in ((0, 1), (0, len(real) - 1)):
+                    if i != j and j < len(real): b = bytearray(real.encode()); b[i] ^= mask; b[j] ^= mask; cands.append(b.decode('latin-1'))
+            b = bytearray(real.encode()); b[0] = (b[0] + 1) % 128; b[1] = (b[1] - 1) % 128; cands.append(b.decode('latin-1'))
+            cands.append(real[1] + real[0] + real[2:]); cands.append(real[::-1])
+            cands = [c for c in dict.fromkeys(cands) if c != real and '.' not in c]
+            for ci, c in enumerate(cands):
                 steps += [{'op': 'mutate', 'in': '$T%d' % fi, 'out': 'M%d_%d' % (fi, ci), 'ops': [{'footer_seg': c}]},
                           {'op': 'parse_core', 'proto': proto, 'token': '$M%d_%d' % (fi, ci), 'key': '$k_pk', 'footer': ftxt, 'assertion': None, 'out': 'R%d_%d' % (fi, ci)}]
-                alts.append([{'var': 'R%d_%d' % (fi, ci), 'is': 'ok'}])
+                alts.append([{'var': 'R%d_%d' % (fi, ci), 'is': 'ok'}]); alts.append([{'var': 'R%d_%d' % (fi, ci), 'is': 'panic'}])
         out = run_native({'steps': steps, 'violated_if': alts}); ses.native_runs = getattr(ses, 'native_runs', 0) + 1
-        v['native'] = {'violated': out.get('violated'), 'accepted': [t for t in (out.get('trace') or []) if 'parse_core' in t and str(t.get('result', '')).startswith('Ok')][:3]}
-        if out.get('violated'): v['what'] += ' [natively: %s accepts a token whose footer segment is not b64url(F): %s]' % (proto, str(v['native']['accepted'])[:200]); return True
+        v['native'] = {'violated': out.get('violated'), 'accepted': [t for t in (out.get('trace') or []) if 'parse_core' in t and not str(t.get('result', '')).startswith('Err')][:3]}
+        if out.get('violated'): v['what'] += ' [natively: %s accepts (or panics on) a token whose footer segment is not b64url(F): %s]' % (proto, str(v['native']['accepted'])[:200]); return True
     return False
 
 
 PY_CONFIRM.update({'footer_compare': confirm_footer_compare})
+
+
+# ----------------------------------------------------------------------------- footer segment of produced tokens (C05, C08)
+FOOTER_FAMILY = ['', 'f', 'fo', 'foo', 'ab?', 'ab>', '~~~', 'key-id:~ops>prod', '{"kid":"k1","jku":"https://keys.example/jwks?v=2"}', '\u00ff\u00fe', '\u7b7e\u540d', 'a' * 100 + '?']
+
+
+def confirm_footer_segment(ses, v):
+    """tokens built by the core with footers of a fixed family (plus the model's): the 4th segment must be the unpadded base64url of the footer, absent iff it is empty,
+    and the payload segment must be unpadded base64url text"""
+    import base64, re as _re
+    r = v.get('replay') or {}; fam = list(FOOTER_FAMILY)
+    mf = (r.get('model') or {}).get('footer')
+    if isinstance(mf, str) and _txt(mf) not in fam: fam.insert(0, _txt(mf))
+    for proto in ([r['proto']] if r.get('proto') else ['v4.local', 'v4.public', 'v3.local', 'v2.local', 'v1.local', 'v3.public', 'v2.public', 'v1.public']):
+        m = {'key': '07' * 32, 'nonce': '09' * 32, 'message': ('m?>~\u00ff' * 3).encode().hex()}
+        steps = key_steps(proto, m)
+        for fi, ftxt in enumerate(fam):
+            mm = dict(m); mm['footer'] = ftxt.encode().hex(); steps.append(build_step(proto, mm, 'some', 'none', out='T%d' % fi))
+        out = run_native({'steps': steps, 'violated_if': []}); ses.native_runs = getattr(ses, 'native_runs', 0) + 1
+        tr = [t for t in (out.get('trace') or []) if 'build_core' in t]
+        if len(tr) != len(fam): v['native'] = {'error': 'replay trace incomplete', 'out': str(out)[:300]}; return None
+        for ftxt, t in zip(fam, tr):
+            res = t.get('result', '')
+            if not res.startswith('Ok('): bad = 'building fails: ' + res[:80]
+            else:
+                seg = res[3:-1].split('.'); want = base64.urlsafe_b64encode(ftxt.encode()).decode().rstrip('=')
+                bad = None
+                if ftxt == '' and len(seg) != 3: bad = 'empty footer, %d segments' % len(seg)
+                elif ftxt != '' and (len(seg) != 4 or seg[3] != want): bad = 'footer segment %r is not base64url(F) = %r' % (seg[3] if len(seg) > 3 else None, want)
+                elif not _re.match(r'^[A-Za-z0-9_-]*$', seg[2]): bad = 'payload segment is not unpadded base64url text: %r' % seg[2][:60]
+            if bad:
+                v['native'] = {'proto': proto, 'footer': ftxt, 'token': res[:200], 'violated': bad}; v['what'] += ' [natively: %s, footer %r: %s]' % (proto, ftxt, bad); v['replay'] = {'kind': 'footer_segment', 'proto': proto}
+                return True
+    return False
+
+
+PY_CONFIRM.update({'footer_segment': confirm_footer_segment, 'c09': lambda ses, v: confirm_parser(ses, v, True)})
+
+
+# ----------------------------------------------------------------------------- construction path of the core layer (newtype constructors, builder setters, Clone)
+def confirm_core_api(ses, v):
+    """built through the public constructors and setters (and through a clone of the builder): a token is accepted with exactly the footer / assertion text it
+    was built with and with no neighbour of it; messages come back character for character"""
+    near = lambda t: [t + ' ', ' ' + t, t + '\n', t + '\t', t.upper(), t[:-1], t + '\u3000', t.strip()]
+    for proto in ('v4.local', 'v4.public', 'v3.local'):
+        m = {'key': '07' * 32, 'nonce': '09' * 32}
+        steps = key_steps(proto, m); alts = []; i = 0
+        for ftxt, atxt, msg in (('kid:1', 'row=7', 'msg'), (' kid:1 ', 'row=7\n', ' m s g \n'), ('', ' ', '\tm')):
+            mm = dict(m, footer=ftxt.encode().hex(), assertion=atxt.encode().hex(), message=msg.encode().hex())
+            b = build_step(proto, mm, 'some', 'some', out='T%d' % i); b['times'] = 2; steps.append(b)       # token _0 from the builder, token _1 from its clone
+            for j in (0, 1):
+                steps.append({'op': 'parse_core', 'proto': proto, 'token': '$T%d_%d' % (i, j), 'key': '$k_pk', 'footer': ftxt, 'assertion': atxt, 'out': 'R%d_%d' % (i, j)})
+                alts.append([{'var': 'R%d_%d' % (i, j), 'is': 'not_ok_eq', 'value': msg}])
+                for ni, f2 in enumerate(x for x in near(ftxt) if x != ftxt):
+                    steps.append({'op': 'parse_core', 'proto': proto, 'token': '$T%d_%d' % (i, j), 'key': '$k_pk', 'footer': f2, 'assertion': atxt, 'out': 'RF%d_%d_%d' % (i, j, ni)}); alts.append([{'var': 'RF%d_%d_%d' % (i, j, ni), 'is': 'ok'}])
+                for ni, a2 in enumerate([x for x in near(atxt) if x != atxt] + [None]):
+                    steps.append({'op': 'parse_core', 'proto': proto, 'token': '$T%d_%d' % (i, j), 'key': '$k_pk', 'footer': ftxt, 'assertion': a2, 'out': 'RA%d_%d_%d' % (i, j, ni)}); alts.append([{'var': 'RA%d_%d_%d' % (i, j, ni), 'is': 'ok'}])
+            i += 1
+        out = run_native({'steps': steps, 'violated_if': alts}); ses.native_runs = getattr(ses, 'native_runs', 0) + 1
+        if out.get('violated'):
+            hit = [t for t in (out.get('trace') or []) if 'parse_core' in t and ((t['parse_core'].startswith('RF') or t['parse_core'].startswith('RA')) and str(t.get('result', '')).startswith('Ok')
+                                                                                 or (t['parse_core'].startswith('R') and t['parse_core'][1].isdigit() and not str(t.get('result', '')).startswith('Ok')))][:2]
+            v['native'] = {'proto': proto, 'violated': True, 'examples': hit}; v['replay'] = {'kind': 'core_api'}
+            v['what'] += ' [natively: %s built through the public constructors/setters: %s]' % (proto, str(hit)[:300]); return True
+        if 'violated' not in out: v['native'] = out; return None
+    return False
+
+
+PY_CONFIRM.update({'core_api': confirm_core_api})
